@@ -14,6 +14,7 @@ pub enum MK { // mark kinds
     IntOperand,                // standalone integer operand in eval
     HiddenWs,                  // insignificant ws/comment token must be hidden/comment channel
     NotInt,                    // a digit run that is only part of an operand (glued to a macro variable reference): not an integer-literal token
+    Word,                      // an operand word: no operator token may start inside it (a mnemonic is only one at a word boundary)
 }
 #[derive(Debug, Clone)]
 pub struct Mark { pub off: usize, pub len: usize, pub kind: MK }
@@ -408,7 +409,7 @@ impl<'a> G<'a> {
         match k {
             0 | 1 => { let s = self.pick(&["0", "1", "42", "100", "0ffx", "007", "10", "00", "1Ax", "0FFX", "999999999"]); self.mark(s, MK::IntOperand); self.tp(); }
             2 => self.mvar(true),
-            3 => { let w = self.pick(&["abc", "x1", "txt", "é", "a b c", "1 2 3", "x.y", "a_1 b", "rate", "size", "SCALE", "value", "base", "type", "and1", "or_x", "nex", "eq1", "inx", "NOTE", "gex", "lte"]); self.p(w); }
+            3 => { let w = self.pick(&["abc", "x1", "txt", "é", "a b c", "1 2 3", "x.y", "a_1 b", "rate", "size", "SCALE", "value", "base", "type", "and1", "or_x", "nex", "eq1", "inx", "NOTE", "gex", "lte", "one", "line", "online", "engine", "alone", "gone", "nine", "Andorra", "legend", "origin"]); if w.chars().all(|c| c.is_ascii_alphanumeric() || c == '_') { self.mark(w, MK::Word); } else { self.p(w); } }
             4 => { self.feat("eval-parens"); self.mark("(", MK::Op("LPAREN")); self.ows(); self.eval_expr(float, false); self.gap_after_expr(); self.mark(")", MK::Op("RPAREN")); }
             5 => { self.user_call(2); self.p(" "); }
             6 => { self.d_inc(); self.builtin_call(2); self.depth -= 1; }
